@@ -57,6 +57,7 @@ class C17(Check):
                    'stdlib one-shot codecs are the reference for the meaning of the bytes']
     ANCHORS = ['rxsci/data/codec.py']
     REQUIRED_TAGS = ENCODINGS + ['cut-in-char', 'empties', 'empty-string', 'astral', 'empty-list', 'string>64Ki', 'alias-spelling']
+    REQUIRED_OBSERVED = ['pairs_of_concurrently_alive_subscriptions', 'second_subscriptions_of_one_observable']
 
     _ops = {}
 
@@ -208,6 +209,14 @@ class C17(Check):
         got = ''.join(d.out)
         if got != text:
             return out.fail('decode-mismatch', want=text, got=got, chunks=chunks)
+        if len(blob) <= 4096:
+            from ..progs import twin_subscriptions
+            t = twin_subscriptions(lambda src: src.pipe(dec_op), chunks, out, 'decode', lambda xs: ''.join(xs))
+            if t is not None and t != text:
+                return out.fail('decode-mismatch-with-two-live-subscribers', want=text, got=t, chunks=chunks)
+            t = twin_subscriptions(lambda src: src.pipe(enc_op), strs, out, 'encode', lambda xs: b''.join(xs))
+            if t is not None and t != blob:
+                return out.fail('encode-differs-with-two-live-subscribers', want=blob, got=t)
         return out
 
     box_done = 0
